@@ -461,10 +461,12 @@ def fmod(a, b):
 class Sem:
     """denotational semantics; fns: name -> Fn (user functions, possibly recursive)"""
 
-    def __init__(self, fns: Dict[str, Fn], width: int):
+    def __init__(self, fns: Dict[str, Fn], width: int, unroll_extra: int = 6):
         self.fns = fns
         self.width = width
         self.unroll: Dict[str, int] = {}
+        self.unroll_extra = unroll_extra  # lists built by the program itself can be longer than any input list
+        self.hit_bound = False
 
     def eval(self, e: E, env: dict):
         """-> (value, abort)  with env: name -> value"""
@@ -602,8 +604,10 @@ class Sem:
                 vals.append(v)
                 ab = z3.Or(ab, av)
             depth = self.unroll.get(fn.name, 0)
-            if fn.rec_depth and depth >= fn.rec_depth:
-                # beyond the input bound: unreachable for bounded inputs; make it an abort so that a mistake shows up
+            if fn.rec_depth and depth >= fn.rec_depth + self.unroll_extra:
+                # beyond the unrolling bound: recorded; a disagreement found with this flag set is re-evaluated concretely
+                # with a much deeper unrolling before it counts (props/c01.py)
+                self.hit_bound = True
                 return default_value(fn.ret), T
             self.unroll[fn.name] = depth + 1
             try:
